@@ -5,6 +5,7 @@
 package vh
 
 import (
+	"log"
 	"crypto/sha256"
 	"encoding/binary"
 	"encoding/hex"
@@ -558,3 +559,13 @@ func CheckHarnessPanic(r any) {
 		}
 	}
 }
+
+// sink swallows log output. It is deliberately not io.Discard: the log package skips
+// formatting altogether for io.Discard, and the formatting (Package.String() of every package
+// sent / received with Info.DebugLogPackages) is what the checks want to have executed.
+type sink struct{}
+
+func (sink) Write(p []byte) (int, error) { return len(p), nil }
+
+// QuietLog sends the standard logger's output to a sink that still makes it format.
+func QuietLog() { log.SetOutput(sink{}) }
